@@ -244,6 +244,11 @@ def run(prop, tier, seed, shard, nshards):
             continue
         try:
             case(acc, sp, kw, rng, tier, rng.randrange(2 ** 31))
+            if kw.get("route") in ("yaml", "dict") and rng.random() < 0.3:
+                from ..twins import any_twin
+                case(acc, any_twin(sp, rng), kw, rng, tier,
+                     rng.randrange(2 ** 31))
+                acc.count("twin_scenarios_right_after_original")
         except Exception as e:      # noqa
             import traceback
             acc.inconclusive.append(
